@@ -271,6 +271,7 @@ class Explorer:
         self.npaths = multiprocessing.Value("l", 0)
         self.nforks = multiprocessing.Value("l", 0)
         self.max_steps = 2_000_000
+        self.ok_models = {}
         self.query_timeout_ms = int(os.environ.get("MIRSYM_QUERY_TIMEOUT_MS", "10000"))
         self._out = None
         self._reset_path([])
@@ -435,6 +436,11 @@ class Explorer:
             try:
                 out = path_fn(self)
                 rec = dict(status="ok", info=out)
+                # a concrete witness of some passing paths (used for the native self-check of engine + oracle)
+                key = str((out or {}).get("result")) if isinstance(out, dict) else str(out)
+                if self.ok_models.get(key, 0) < 2:
+                    self.ok_models[key] = self.ok_models.get(key, 0) + 1
+                    rec["model"] = self.model_for()
             except Panic as p:
                 rec = dict(status="panic", info=str(p), model=self.model_for())
             except Infeasible:
